@@ -38,9 +38,9 @@ def shards(tier, seed):
 
 
 class Probe(torch.nn.Module):
-    def __init__(self, kind, out, seed):
+    def __init__(self, kind, out, seed, L=L):
         super().__init__()
-        self.kind, self.out = kind, out
+        self.kind, self.out, self.L = kind, out, L
         g = torch.Generator().manual_seed(100 + seed)
         if kind != "paramfree":
             self.lin = torch.nn.Linear(4 * L, 3).double()
@@ -60,7 +60,7 @@ class Probe(torch.nn.Module):
         self.log = []
 
     def forward(self, X, *args):
-        ids = (X.double().argmax(1) * (4 ** torch.arange(L))).sum(1).long().tolist()
+        ids = (X.double().argmax(1) * (4 ** torch.arange(self.L))).sum(1).long().tolist()
         aids = [a.reshape(a.shape[0], -1)[:, 0].long().tolist() for a in args]
         self.log.append(dict(training=any(m.training for m in self.modules()), grad=torch.is_grad_enabled(), ids=ids, aids=aids,
                              x_dtype=str(X.dtype)))
@@ -80,7 +80,7 @@ class Probe(torch.nn.Module):
         return [y, y[:, :1] - 1, y.reshape(-1, 3, 1).repeat(1, 1, 2)]
 
 
-def make_inputs(n, nargs):
+def make_inputs(n, nargs, L=L):
     ids = numpy.arange(n) + 3
     codes = numpy.stack([(ids // (4 ** j)) % 4 for j in range(L)], axis=1)
     X = torch.zeros(n, 4, L, dtype=torch.int8)
@@ -97,9 +97,16 @@ def make_inputs(n, nargs):
     return X, args, ids.tolist()
 
 
-def check_one(rec, model0, n, b, nargs, seed, as_tuple=False):
+def check_one(rec, model0, n, b, nargs, seed, as_tuple=False, layout="contiguous"):
     from tangermeme.predict import predict
-    X, args, ids = make_inputs(n, nargs)
+    L = model0.L
+    X, args, ids = make_inputs(n, nargs, L)
+    if layout == "strided":
+        # the same values as non-contiguous views (every second row of a larger buffer / a transposed buffer)
+        big = torch.zeros(2 * n, 4, L, dtype=X.dtype)
+        big[::2] = X
+        X = big[::2]
+        args = [torch.stack([a, a + 7], dim=1)[:, 0] if a.ndim >= 1 else a for a in args]
     Xc, argsc = X.clone(), [a.clone() for a in args]
     model = copy.deepcopy(model0)
     # mode history of the model before the call: everything in training mode / root switched to eval but a sub-module put back
@@ -115,7 +122,7 @@ def check_one(rec, model0, n, b, nargs, seed, as_tuple=False):
         model.eval()
         model.training = True
     model.log = []
-    case = dict(fn="predict", n=n, batch_size=b, n_args=nargs, out=model.out, model=model.kind, mode_before=mode)
+    case = dict(fn="predict", n=n, batch_size=b, n_args=nargs, out=model.out, model=model.kind, mode_before=mode, layout=layout)
     a_in = None if nargs == 0 else (tuple(args) if as_tuple else list(args))
     st, y = call(predict, model, X, args=a_in, batch_size=b, device="cpu")
     rec.case(1, int(b < n or nargs > 0))
@@ -174,11 +181,11 @@ def check_one(rec, model0, n, b, nargs, seed, as_tuple=False):
 
 def check_mismatch(rec, model0, n, nargs, which, delta):
     from tangermeme.predict import predict
-    X, args, ids = make_inputs(n, nargs)
+    X, args, ids = make_inputs(n, nargs, model0.L)
     m = n + delta if delta != "one" else 1
     if m == n or m < 1:
         return
-    _, bad, _ = make_inputs(m, nargs)
+    _, bad, _ = make_inputs(m, nargs, model0.L)
     args = list(args)
     args[which] = bad[which]
     model = copy.deepcopy(model0)
@@ -202,6 +209,26 @@ def run_shard(sh, tier, seed):
                     check_mismatch(rec, model0, n, nargs, which, delta)
         if n in (1, 5, 12, 33):
             check_one(rec, model0, n, 10 ** 6, 1, seed)
+        if n % 5 == 0:
+            for b in (1, 3, n):
+                check_one(rec, model0, n, b, 2, seed, layout="strided")
+    if sh["ns"][0] == 1:
+        # sizes beyond 8-bit counters and around the default batch size of 32 (ids encoded in 5 positions: 1024 values)
+        big = Probe(sh["model"], sh["out"], seed, L=5)
+        for n in (31, 32, 33, 64, 127, 128, 129, 255, 256, 257, 300):
+            for b in (1, 31, 32, 33, 127, 128, 255, 256, 1000):
+                if b == 1 and n > 64:
+                    continue
+                check_one(rec, big, n, b, 1 + (n + b) % 2, seed)
+            if n in (33, 257):
+                from tangermeme.predict import predict
+                X, args, ids = make_inputs(n, 1, 5)
+                m = copy.deepcopy(big)
+                m.log = []
+                st, y = call(predict, m, X, args=args, device="cpu")          # default batch_size
+                rec.case(1, 1)
+                if st != "ok" or [len(c["ids"]) for c in m.log] != [32] * (n // 32) + ([n % 32] if n % 32 else []):
+                    rec.violation("predict:default_batch_size_not_32", dict(fn="predict", n=n), observed=[len(c["ids"]) for c in m.log] if st == "ok" else y)
     rec.sample(dict(model=sh["model"], out=sh["out"], n=sh["ns"], batch_size="1..n+3", n_args="0..3"))
     return rec.result()
 
